@@ -56,9 +56,26 @@ def parse(out):
     return {"ev": ev, "kinds": kinds, "steps": steps, "nadvance": nadv, "complete": nadv is not None}
 
 
-def tol(t, nsteps):
+TI_EPSILON = 1e-9           # constexpr EPSILON of cpu_ti.cpp
+
+
+def tol(t, nsteps, prec=PREC_TIMING):
     """Allowed |date difference| at reference date t after nsteps time advances (see META['level_note'] of props/C19.py)."""
-    return PREC_TIMING + 4.0 * max(nsteps, 1) * math.ulp(max(abs(t), 1.0))
+    return prec + 4.0 * max(nsteps, 1) * math.ulp(max(abs(t), 1.0))
+
+
+def precision_for(w, cfg):
+    """precision/timing, plus under cpu/optim:TI what the model's own epsilon allows: CpuTiTmgr::solve() completes at once an action whose
+    remaining work is below EPSILON = 1e-9 s of full-speed time of its host (amount * sharing factor / peak speed < 1e-9, sharing factor >= 1),
+    which is up to 1e-9 / availability seconds of simulated time. Every exec small enough for that (flops < 1e-9 * fastest pstate of its
+    host) may therefore shift the dates by 1e-9 / (smallest availability of the speed profiles)."""
+    if cfg[0] != "TI":
+        return PREC_TIMING
+    from verif.gen import optim as gen
+    hosts = {h["name"]: h for h in w["platform"]["hosts"]}
+    nsub = sum(1 for a in gen.all_acts(w).values() if a[0] == "E" and a[3] < TI_EPSILON * max(hosts[a[2]]["speeds"]))
+    scale = min([1.0] + [v for h in hosts.values() if h.get("profile") for _, v in h["profile"]["points"]])
+    return PREC_TIMING + nsub * TI_EPSILON / scale
 
 
 KIND_NAMES = {"E": "exec", "C": "comm", "M": "comm", "m": "comm"}
@@ -123,7 +140,7 @@ def near_tie(ref, window=4e-9):
 ROOT_RANK = {"finish": 0, "sig-finish": 1, "sleep": 2, "end": 3}
 
 
-def compare(ref, obs):
+def compare(ref, obs, prec=PREC_TIMING):
     """Compares every date of obs with ref. 'first' is the earliest disagreement (a completion before the events that merely follow it
     at the same date), 'worst' the largest |difference| / tolerance, 'missing' / 'extra' the events logged by only one of the runs."""
     rk, ok = set(ref["ev"]), set(obs["ev"])
@@ -133,7 +150,7 @@ def compare(ref, obs):
     for key in rk & ok:
         a, b = ref["ev"][key], obs["ev"][key]
         d = abs(a - b)
-        t = tol(a, nsteps)
+        t = tol(a, nsteps, prec)
         if d / t > worst:
             worst = d / t
         if d > t:
